@@ -59,6 +59,12 @@ def stages(tier, rng, only=None):
     out.append(ac.stage("huge_penalties", PID, lambda: ac.huge_cases(
         [ac.random_dataset(rng, 6, 6, nmin=3) for _ in range(n_rand // 3)]
         + [ac.cyclic_dataset(rng, 3, 6, incomplete=k % 2 == 1) for k in range(n_rand // 3)], cheap_cfgs), _nt))
+    nosolver = [c for c in algorun.ALL_CONFIGS if c not in COSTLY and not c.startswith("ParCons")]
+    out.append(ac.stage("larger", PID, lambda: ac.cases([ac.larger_dataset(rng) for _ in range(n_rand // 5)], nosolver,
+                                                        SCHEMES + ac.MIXEDMAG[:2], flags=(1, 0)), _nt))
+    out.append(ac.stage("eleven_plus", PID, lambda: ac.cases(
+        [ac.eleven_plus_dataset(rng) for _ in range(6 if tier == "quick" else 40)],
+        ["ExactPulp", "Exact(opt)", "ParCons", "BioConsert", "Copeland", "ExactOptim1"], SCHEMES, flags=(1,)), _nt))
     out.append(ac.stage("cycles", PID, lambda: ac.cases(
         [ac.cyclic_dataset(rng, 3, 5, incomplete=k % 2 == 1) for k in range(n_rand // 3)],
         algorun.ALL_CONFIGS, SCHEMES, every={k: 2 * v for k, v in COSTLY.items()}), _nt))
